@@ -5,6 +5,8 @@ from pyvc.driver import custom
 from pyvc import astcheck as A
 
 LEVEL = "other"
+# obligations whose failure is a semantic fact about the tree (not a shape that is no longer recognized): reported as violations on their own
+DEFINITE = ("/matrix.", "every_taxable_type_has_a_sheet", "method_option_defaults_to_nothing", "a_single_method_schedule_is_not_assumed")
 FLOOR = 60
 EXPLANATION = ("The option matrix is finite and is enumerated from the current tree: for each country plugin the literal sets returned by get_accounting_methods / "
                "get_report_generators and the default method / language are read from the AST; obligations: every accepted method resolves to a plugin module "
